@@ -17,7 +17,10 @@ Template language (lines starting with `//@` inside /verif/contracts/<unit>.vrs)
   //@ | attr <text>                       attribute line put before the fn
   //@ | raw                               no contract; item copied after drop rules (struct/enum/const/impl/macro)
   //@ | fragment <kind> <ordinal>         only the ordinal-th `kind` statement of the fn body, verbatim
-  //@ | subst <from> => <to>              textual substitution applied to the extracted text (listed in evidence)
+  //@ | subst <from> => <to>              textual substitution applied to the extracted text (listed in evidence); anchor lost if absent
+  //@ | substopt <from> => <to>           same, but applied only if <from> occurs (listed in evidence when applied)
+  //@ | substws <from> => <to>            same as subst, <from> matched modulo whitespace (multi-line constructs)
+  //@ | fragment span A ~~ B / closure N / tail M / let NAME   further fragment kinds, see rsextract.fragment
   //@ | novac                             do not generate the requires-satisfiability probe for this fn
   //@ | +<text>                           continuation of the previous clause
   //@ end
@@ -150,6 +153,10 @@ def _parse_block(lines: list[str]):
         elif word == "subst":
             a, _, b = rest.partition("=>")
             d["subst"].append((a.strip(), b.strip()))
+        elif word == "substopt":
+            # like subst, but the source text may be absent (a rewrite that is only needed when the construct occurs)
+            a, _, b = rest.partition("=>")
+            d["subst"].append(("\x00op" + a.strip(), b.strip()))
         elif word == "substws":
             # like subst, but the source text is matched modulo whitespace (for constructs that span several source lines)
             a, _, b = rest.partition("=>")
@@ -304,6 +311,12 @@ def generate(template_path: str, snapshot: str, exclude: dict | None = None) -> 
                     raise ExtractError(f"{file} | {item}: anchor lost: substitution source `{x}` not present (modulo whitespace)")
                 text = re.sub(rx, lambda _m: y, text)
                 substs.append(f"{file} | {item}: `{x}` (modulo whitespace) => `{y}`")
+                continue
+            if x.startswith("\x00op"):
+                x = x[3:]
+                if x in text:
+                    text = text.replace(x, y)
+                    substs.append(f"{file} | {item}: `{x}` => `{y}`")
                 continue
             if x not in text:
                 raise ExtractError(f"{file} | {item}: anchor lost: substitution source `{x}` not present")
